@@ -129,8 +129,7 @@ def r20_2(ctx: Ctx) -> None:
         return
     lits = {lit for lit in refusal_form[1] if lit[0] == "lit"}
     reuse = [lit for lit in lits if lit[1].replace('"', "'") == "input_file.endswith('.json')" and lit[2] is False]
-    other = [lit for lit in lits if "_ignore_patterns" in lit[1] and lit[2] is True
-             and "glob.glob(os.path.join(name, '*'))" in lit[1].replace('"', "'")]
+    other = [lit for lit in lits if "_ignore_patterns" in lit[1] and lit[2] is True]
     # literals that only establish that the directory exists are part of every path to the refusal
     extra = [lit for lit in lits if lit not in reuse + other and "os.path.exists(name)" not in lit[1]
              and "os.path.isdir(name)" not in lit[1]]
@@ -139,6 +138,16 @@ def r20_2(ctx: Ctx) -> None:
            "refuse when the input is not a results file and the directory holds any entry not on the ignore list",
            detail="" if ok else f"unexpected extra conditions: {extra}" if extra else "conditions not recognised",
            form=" and ".join(sorted(("" if lit[2] else "not ") + lit[1] for lit in lits)))
+    # what the refusal looks at is the complete content of the directory
+    listing = other[0][1].replace('"', "'") if other else ""
+    complete = ("os.listdir(name)" in listing or "os.scandir(name)" in listing) and "glob.glob(" not in listing
+    if "glob.glob(" in listing:
+        complete = "glob.escape(name)" in listing and "include_hidden=True" in listing
+    ctx.ob("R20.2", MAIN, refusal, qual, "directory content enumerated completely", complete,
+           "the emptiness test sees every entry of the directory: a glob pattern built from the directory's name is a pattern "
+           "itself (`results[1]` matches nothing), and `*` does not match hidden files",
+           detail="" if complete else "an existing output directory named `results[1]` holding notes.txt and a.region001.gbk is accepted, "
+           "and so is a directory holding only `.notes`", form=listing[:160])
     writes = _write_opens(func)
     destructive = [c for c in calls(func) if call_name(c) in DESTRUCTIVE or c in writes]
     if not destructive:
